@@ -109,7 +109,7 @@ class ExprMixin(object):
             else:
                 tmpl += '%s'
                 args.append(self.ev(v.value))
-        return Fmt(tmpl, tuple(args))
+        return self.fold_fmt(tmpl, tuple(args))
 
     def ev_FormattedValue(self, e):
         return self.ev(e.value)
@@ -175,6 +175,41 @@ class ExprMixin(object):
                 return Const(template % tuple(a.value for a in args))
             except Exception:
                 pass
+        if any(isinstance(a, Fmt) or (isinstance(a, Const) and isinstance(a.value, str))
+               for a in args):
+            # inline string / format arguments of plain %s holes: one flat template
+            out, oargs, i, k, ok = '', [], 0, 0, True
+            while i < len(template):
+                ch = template[i]
+                if ch != '%':
+                    out += ch
+                    i += 1
+                    continue
+                nxt = template[i + 1:i + 2]
+                if nxt == '%':
+                    out += '%%'
+                    i += 2
+                elif nxt == 's' and k < len(args):
+                    a = args[k]
+                    k += 1
+                    t, fa = self.as_fmt(a)
+                    if t is not None:
+                        out += t
+                        oargs.extend(fa)
+                    else:
+                        out += '%s'
+                        oargs.append(a)
+                    i += 2
+                else:
+                    ok = False
+                    break
+            if ok and k == len(args):
+                if not oargs:
+                    try:
+                        return Const(out % ())
+                    except Exception:
+                        pass
+                return Fmt(out, tuple(oargs))
         return Fmt(template, tuple(args))
 
     def ev_UnaryOp(self, e):
@@ -532,6 +567,7 @@ class ExprMixin(object):
     def comprehension(self, e, elts, kind):
         out = ListObj([], True, self.cur, kind if kind != 'dict' else 'list')
         dout = DictObj([], self.cur)
+        exact = [False]
 
         def level(i):
             if i == len(e.generators):
@@ -539,11 +575,24 @@ class ExprMixin(object):
                 if kind == 'dict':
                     dout.entries.append((vals[0], vals[1]))
                 else:
-                    if not any(vals[0] is it or vals[0] == it for it in out.items):
+                    if exact[0] or not any(vals[0] is it or vals[0] == it
+                                           for it in out.items):
                         out.items.append(vals[0])
+                    if self.cur is not None:
+                        # (the list under construction cannot be named by the program:
+                        # it carries nothing from one iteration to the next)
+                        self.emit('append', e, {'list': out, 'value': vals[0],
+                                                'comprehension': True})
                 return
             gen = e.generators[i]
             it = self.ev(gen.iter)
+            if kind == 'list' and len(e.generators) == 1 and not gen.ifs and \
+                    (isinstance(it, TupleT) or (isinstance(it, ListObj) and not it.open)) \
+                    and len(it.items) <= 8 and \
+                    not any(isinstance(x, GenObj) for x in it.items):
+                # a map over a statically known sequence: the result is that
+                # sequence, element by element (unrolled by iterate)
+                exact[0] = True
 
             def per_item(val):
                 self.bind_target(gen.target, val)
@@ -561,6 +610,8 @@ class ExprMixin(object):
                     level(i + 1)
             self.iterate(it, per_item, set(), gen.iter)
         level(0)
+        if exact[0] and self.cur is not None:
+            object.__setattr__(out, 'open', False)
         return dout if kind == 'dict' else out
 
     # ------------------------------------------------------------ yield/await
